@@ -88,6 +88,8 @@ type interp struct {
 	sched *scheduler
 	speculating bool
 	atomCache map[int32][]*Term
+	zlibWs    map[*value]*zlibW
+	zlibRs    map[*value]*zlibR
 }
 
 type methodKey struct {
